@@ -18,6 +18,8 @@ CONSTANTS
   FoldExcluded = TRUE
   DirReplyLocks = TRUE
   ScanDirCycles = FALSE
+  AlwaysAccumulate = FALSE
+  FlagsTakenAtStart = TRUE
   RevertWithinTick = FALSE
 INVARIANT TypeOK
 INVARIANT HolderIsInnermost
